@@ -5,6 +5,7 @@ import (
 	"encoding/base64"
 	"encoding/json"
 	"fmt"
+	"io"
 	"os"
 	"path/filepath"
 	"regexp"
@@ -69,7 +70,8 @@ type Scenario struct {
 	DstFd          string   `json:"dst_fd,omitempty"` // "" | devfd | procfd: the output is named /dev/fd/7 (/proc/self/fd/7), descriptor 7 being open on the destination file
 	Fs             string   `json:"fs,omitempty"`     // file system mounted on the output directory: "" (the scratch tmpfs) | ramfs (statfs reports no blocks at all) | tmpfs_small | tmpfs_full (no free block: real ENOSPC on write) | tmpfs_noinodes (no free inode: real ENOSPC on create)
 	fsActive       bool     // the file system of this run is really mounted (set by execute)
-	Argv0          string   `json:"argv0,omitempty"` // invoke the command through a symlink of this name
+	Argv0          string   `json:"argv0,omitempty"`      // invoke the command through a symlink of this name
+	ArgPrefix      string   `json:"arg_prefix,omitempty"` // switches in front of the file arguments that leave their meaning unchanged: "--" | "-d=false" | "-d=false --" | "--d=false"
 	SrcMtime       int64    `json:"src_mtime,omitempty"`
 	Fault          *Fault   `json:"fault,omitempty"`
 }
@@ -99,6 +101,8 @@ type ScenarioOutcome struct {
 	WallMs       int64    `json:"wall_ms"`
 
 	dstAbsForJudge string
+	dstCollected   []byte // destination is a FIFO: what its reader received
+	dstIsFifo      bool
 }
 
 // ---------- source materialisation ----------
@@ -354,6 +358,7 @@ func (s *Scenario) materialise0() (src []byte, plain []byte) {
 // ---------- world ----------
 
 type worldPaths struct {
+	dstIsFifo      bool
 	fsMounted      bool
 	dstFdPath      string
 	W              string
@@ -486,6 +491,9 @@ func (s *Scenario) buildWorld(W string, src []byte, image []byte) (*worldPaths, 
 		must(os.WriteFile(srcAbs, src, 0644))
 	case "barename": // a bare file name in the current directory, with an unusual first character
 		srcName = pick(r, []string{"01_hello.nas", "3d.nas", "2", "+x.nas", "=a.nas", "@file.nas", "~tilde.nas", ".hidden.nas", "a b.nas", "名前.nas", "1"})
+		if strings.HasSuffix(s.ArgPrefix, "--") && s.Seed%2 == 0 {
+			srcName = pick(r, []string{"-boot.nas", "-d", "--x.nas", "-"}) // after "--" a name may begin with a dash
+		}
 		srcAbs = filepath.Join(W, srcName)
 		must(os.WriteFile(srcAbs, src, 0644))
 	case "fifo": // a named pipe fed by a writer (stat size 0; e.g. the output of a preprocessor)
@@ -617,6 +625,10 @@ func (s *Scenario) buildWorld(W string, src []byte, image []byte) (*worldPaths, 
 		} else {
 			must(os.Symlink(srcAbs, dstAbs))
 		}
+	case "fifo": // a named pipe with a reader at the other end: not seekable, no truncation, no size
+		must(syscall.Mkfifo(dstAbs, 0666))
+		os.Chmod(dstAbs, 0666)
+		wp.dstIsFifo = true
 	case "symlink_loop": // ELOOP
 		other := filepath.Join(W, "out", "loop2")
 		must(os.Symlink(other, dstAbs))
@@ -711,6 +723,17 @@ func (s *Scenario) buildWorld(W string, src []byte, image []byte) (*worldPaths, 
 }
 
 func (s *Scenario) argv(wp *worldPaths) []string {
+	a := s.argv0(wp)
+	if s.ArgPrefix != "" {
+		switch s.Shape {
+		case "none", "src", "src-dst", "src-dst-lst", "four", "src-dst-dashlst", "src-dst-v":
+			a = append(strings.Fields(s.ArgPrefix), a...)
+		}
+	}
+	return a
+}
+
+func (s *Scenario) argv0(wp *worldPaths) []string {
 	switch s.Shape {
 	case "none":
 		return nil
@@ -967,7 +990,11 @@ func judge(s *Scenario, e expectation, o *ScenarioOutcome, image []byte, imageCl
 			if !ok {
 				kind := "other-content"
 				if imageClass == "ok" && strings.HasPrefix(o.DstPost, "file:") {
-					if b, err := os.ReadFile(o.dstAbsForJudge); err == nil && len(b) < len(image) && bytes.Equal(b, image[:len(b)]) {
+					b, err := o.dstCollected, error(nil)
+					if !o.dstIsFifo {
+						b, err = os.ReadFile(o.dstAbsForJudge)
+					}
+					if err == nil && len(b) < len(image) && bytes.Equal(b, image[:len(b)]) {
 						kind = "proper-prefix"
 					} else if err == nil && len(b) > len(image) && bytes.Equal(b[:len(image)], image) {
 						kind = "image-plus-stale-tail"
@@ -1166,6 +1193,9 @@ func (c *c19Ctx) execute(s *Scenario, keepDir bool) (out *ScenarioOutcome, viol 
 	} else {
 		out.DstPre = s.DstKind
 	}
+	if wp.dstIsFifo {
+		out.DstPre = fmt.Sprintf("file:%s:%d", shaHex(nil), 0) // nothing delivered yet
+	}
 	pre := snapshotWorld(W)
 	run := func(f *Fault) (ProcResult, int, []string) {
 		var cmd []string
@@ -1244,6 +1274,18 @@ func (c *c19Ctx) execute(s *Scenario, keepDir bool) (out *ScenarioOutcome, viol 
 				}
 			}()
 		}
+		var sinkDone chan struct{}
+		var sunk []byte
+		if wp.dstIsFifo {
+			sinkDone = make(chan struct{})
+			go func() { // blocks in open until gosk (or, afterwards, the harness) opens the pipe for writing
+				defer close(sinkDone)
+				if f, err := os.OpenFile(wp.DstAbs, os.O_RDONLY, 0); err == nil {
+					sunk, _ = io.ReadAll(f)
+					f.Close()
+				}
+			}()
+		}
 		cwd := W
 		switch s.Cwd {
 		case "root":
@@ -1265,6 +1307,14 @@ func (c *c19Ctx) execute(s *Scenario, keepDir bool) (out *ScenarioOutcome, viol 
 			} else {
 				<-feederDone
 			}
+		}
+		if sinkDone != nil {
+			// end of stream for the reader, also when gosk never opened the pipe
+			if wf, err := os.OpenFile(wp.DstAbs, os.O_RDWR|syscall.O_NONBLOCK, 0); err == nil {
+				wf.Close()
+			}
+			<-sinkDone
+			out.dstCollected, out.dstIsFifo = sunk, true
 		}
 		if pr.TimedOut {
 			js, _ := json.Marshal(s)
@@ -1329,6 +1379,9 @@ func (c *c19Ctx) execute(s *Scenario, keepDir bool) (out *ScenarioOutcome, viol 
 	} else {
 		out.DstPost = s.DstKind
 	}
+	if wp.dstIsFifo {
+		out.DstPost = fmt.Sprintf("file:%s:%d", shaHex(out.dstCollected), len(out.dstCollected))
+	}
 	post := snapshotWorld(W)
 	dstRel, _ := filepath.Rel(W, wp.DstAbs)
 	for k, v := range post {
@@ -1371,6 +1424,9 @@ func (c *c19Ctx) execute(s *Scenario, keepDir bool) (out *ScenarioOutcome, viol 
 			hx := pr2.Exit
 			out.HealExit = &hx
 			out.HealDstPost = describePath(wp.DstAbs)
+			if wp.dstIsFifo {
+				out.HealDstPost = fmt.Sprintf("file:%s:%d", shaHex(out.dstCollected), len(out.dstCollected))
+			}
 			imgDesc := fmt.Sprintf("file:%s:%d", shaHex(image), len(image))
 			if s.DstKind == "dev_null" {
 				out.HealDstPost = imgDesc
